@@ -86,6 +86,8 @@ const (
 	viaLocal e2eTransport = iota
 	viaHTTP1
 	viaHTTP2
+	viaLocalFrag1 // in-process, both bodies delivered one byte per Read
+	viaLocalFrag3 // in-process, both bodies delivered at most three bytes per Read
 )
 
 func endOf(err error) string {
@@ -186,6 +188,12 @@ func runE2E[T any](mk msgKind[T], kind string, via e2eTransport, copts []connect
 	switch via {
 	case viaLocal:
 		httpClient = &h.LocalClient{Handler: mux}
+	case viaLocalFrag1, viaLocalFrag3:
+		k := 1
+		if via == viaLocalFrag3 {
+			k = 3
+		}
+		httpClient = &fragClient{inner: &h.LocalClient{Handler: mux}, k: k}
 	default:
 		srv := httptest.NewUnstartedServer(mux)
 		srv.EnableHTTP2 = via == viaHTTP2
@@ -316,4 +324,38 @@ func hexList(a [][]byte) []string {
 		}
 	}
 	return out
+}
+
+// fragClient delivers the request body to the transport and the response body
+// to the caller at most k bytes per Read (a re-chunking proxy, a slow link).
+type fragClient struct {
+	inner connect.HTTPClient
+	k     int
+}
+
+type fragBody struct {
+	rc io.ReadCloser
+	k  int
+}
+
+func (b *fragBody) Read(p []byte) (int, error) {
+	if len(p) > b.k {
+		p = p[:b.k]
+	}
+	return b.rc.Read(p)
+}
+func (b *fragBody) Close() error { return b.rc.Close() }
+
+func (c *fragClient) Do(req *http.Request) (*http.Response, error) {
+	r2 := req.Clone(req.Context())
+	if req.Body != nil {
+		r2.Body = &fragBody{req.Body, c.k}
+	}
+	res, err := c.inner.Do(r2)
+	if err != nil {
+		return nil, err
+	}
+	res.Body = &fragBody{res.Body, c.k}
+	res.Request = req
+	return res, nil
 }
